@@ -218,8 +218,16 @@ func (a *batchConn) batchSendLoop(cfg config.TiKVClient) {
 		a.reqBuilder.reset()
 
 		headRecvTime, headArrivalInterval := a.fetchAllPendingRequests(int(cfg.MaxBatchSize))
+		if a.isClosed() {
+			// Nothing is sent any more. Fail what is still waiting in the builder (entries held back by the concurrency
+			// limit would otherwise keep this loop spinning) and the asynchronous requests left in the queue.
+			a.inspectPendingRequests(headRecvTime)
+			a.reqBuilder.cancel(errors.New("batchConn closed"))
+			a.failQueuedAsyncRequestsOnClose()
+			return
+		}
 		if a.reqBuilder.len() == 0 {
-			// the conn is closed or recycled.
+			// the conn is recycled.
 			a.inspectPendingRequests(headRecvTime)
 			return
 		}
@@ -261,6 +269,32 @@ func (a *batchConn) batchSendLoop(cfg config.TiKVClient) {
 			a.inspectPendingRequests(sendLoopEndTime)
 			lastPendingInspectAt = sendLoopEndTime
 		}
+	}
+}
+
+// failQueuedAsyncRequestsOnClose fails the asynchronous requests that are still queued when the send loop stops because
+// the conn is closed. Nobody else would complete them: a synchronous caller watches `closed` itself, an asynchronous one
+// only has its callback.
+func (a *batchConn) failQueuedAsyncRequestsOnClose() {
+	err := errors.New("batchConn closed")
+	for {
+		select {
+		case entry := <-a.batchCommandsCh:
+			if entry != nil && entry.async() {
+				entry.error(err)
+			}
+		default:
+			return
+		}
+	}
+}
+
+func (a *batchConn) isClosed() bool {
+	select {
+	case <-a.closed:
+		return true
+	default:
+		return false
 	}
 }
 
